@@ -303,6 +303,25 @@ func checkC05(c *Check) {
 		c.Req(emptySlot, "C05.R4:accumulate:empty-slot", r4, pos, "a fragment is counted without the `slot is empty` edge: a duplicate completes the message with a fragment missing")
 	}
 	c.Floor("C05.R4:accumulate-sites", nAcc, 1)
+	// the accumulated size grows only together with the count (same empty-slot edge)
+	for _, fr := range fieldRefs([]*ssa.Function{feed}, fSize) {
+		if fr.Kind != "store" || !dependsOnField(fr.Val, fSize) {
+			continue
+		}
+		emptySlot := guardedBy(fr.Instr, func(cond ssa.Value, pol bool) bool {
+			x, isNil, ok := nilTest(cond, pol)
+			if !ok || !isNil {
+				return false
+			}
+			u, ok := resolve(x).(*ssa.UnOp)
+			if !ok || u.Op != token.MUL {
+				return false
+			}
+			ia, ok := u.X.(*ssa.IndexAddr)
+			return ok && isLoadOfField(ia.X, fFrags) && fieldNameOfLoad(ia.Index) == "FragID"
+		})
+		c.Req(emptySlot, "C05.R4:accumulate:size-with-empty-slot", r4, p.InstrPos(fr.Instr), "the accumulated size grows without the `slot is empty` edge: a duplicate fragment inflates the reassembled message")
+	}
 	// reset: a new slot array comes with new pktID, count, size
 	for _, fr := range fieldRefs([]*ssa.Function{feed}, fFrags) {
 		if fr.Kind != "store" {
